@@ -95,7 +95,11 @@ def main(tier: str) -> int:
                               f"independent decoder (TLC, JellyReader): {case.verdict['verdict']} at row {case.verdict['at']}", case.replay)
         if len(samples) < 3 and case.items:
             samples.append({"key": case.key, "first_items": [repr(x) for x in case.items[:2]], "bytes": len(case.data or b"")})
+    from .. import usage as _usage  # noqa: PLC0415
+
+    usage_cov = _usage.write_lattice(run, "generic")
     return run.finish({
+        "usage_lattice": usage_cov,
         "states": states, "transitions": trans, "traces_validated_against_impl": judged,
         "samples": samples, "exhaustive": False,
         "slices": cov, "simulation": stats["sim"], "judge": stats["judge"],
